@@ -219,7 +219,21 @@ impl<Rounds: Unsigned + Default> NewCipher for ChaChaAny<U24, Rounds, X> {
 impl<NonceSize: Unsigned, Rounds, IsX> StreamCipherSeek for ChaChaAny<NonceSize, Rounds, IsX> {
     #[inline]
     fn try_current_pos<T: SeekNum>(&self) -> Result<T, OverflowError> {
-        unimplemented!()
+        let total = if NonceSize::U32 != 12 {
+            BIG_LEN
+        } else {
+            SMALL_LEN
+        };
+        // Blocks generated so far, including a buffered one.
+        let blocks = total.wrapping_sub(self.state.len);
+        let have = self.state.have;
+        if have > 0 {
+            // `have` bytes of the most recent block are still unread.
+            T::from_block_byte(blocks - 1, BLOCK as u8 - have as u8, BLOCK as u8)
+        } else {
+            // At a block boundary, or `-have` bytes into a block that is not generated yet.
+            T::from_block_byte(blocks, (-have) as u8, BLOCK as u8)
+        }
     }
     #[inline(always)]
     fn try_seek<T: SeekNum>(&mut self, pos: T) -> Result<(), LoopError> {
